@@ -37,10 +37,40 @@ type partSpec []int
 type featSpec struct {
 	Kind  string     `json:"kind"` // "N" non-polygon, "P" polygon, "M" multipolygon
 	Parts []partSpec `json:"parts,omitempty"`
+	T     int        `json:"type,omitempty"` // for "N": which non-polygon geometry (see nonPolygon)
+}
+
+// nonPolygon: the geometry of non-polygon feature i of type t.  Every one of them must reach every
+// target untouched: simple types, multi types, collections (also one that contains a polygon, and an
+// empty one), a pointer to a geometry and a feature without geometry.
+const nonPolygonTypes = 8
+
+func nonPolygon(i, t int) geom.Geometry {
+	x := float64(i)
+	switch t {
+	case 1:
+		return geom.LineString{{x, 0.5}, {x + 1, 1.5}}
+	case 2:
+		return geom.MultiPoint{{x, 0.5}, {x, 2.5}}
+	case 3:
+		return geom.MultiLineString{{{x, 0.5}, {x + 1, 1.5}}, {{x, 2}, {x, 3}}}
+	case 4:
+		return geom.Collection{geom.Point{x, 0.5}, geom.Polygon{{{x, 0}, {x + 4, 0}, {x + 4, 4}, {x, 4}}}}
+	case 5:
+		return geom.Collection{}
+	case 6:
+		return nil
+	case 7:
+		return &geom.Point{x, 0.5}
+	}
+	return geom.Point{x, 0.5}
 }
 
 func (f featSpec) String() string {
 	if f.Kind == "N" {
+		if f.T != 0 {
+			return fmt.Sprintf("N%d", f.T)
+		}
 		return "N"
 	}
 	var ps []string
@@ -83,7 +113,7 @@ func (sc *scenario) build() []*feature {
 		f := &feature{id: i, cols: []interface{}{int64(i), fmt.Sprintf("attr-%d", i)}}
 		switch s.Kind {
 		case "N":
-			f.g = geom.Point{float64(i), 0.5}
+			f.g = nonPolygon(i, s.T)
 		case "P":
 			f.g = inPolygon(i, 0)
 		case "M":
@@ -167,7 +197,8 @@ func (sc *scenario) reference(ti int) []rec {
 		cols := fmt.Sprint([]interface{}{int64(i), fmt.Sprintf("attr-%d", i)})
 		switch s.Kind {
 		case "N":
-			out = append(out, rec{Fid: i, Cols: cols, Raw: fmt.Sprintf("%T%v", geom.Point{}, geom.Point{float64(i), 0.5})})
+			g := nonPolygon(i, s.T)
+			out = append(out, rec{Fid: i, Cols: cols, Raw: fmt.Sprintf("%T%v", g, g)})
 		default:
 			var ps []geom.Polygon
 			for p, part := range s.Parts {
@@ -531,9 +562,23 @@ func tmIDsFor(n int) []int {
 	return ids[:n]
 }
 
+// typeAlphabet: every non-polygon geometry type plus one polygon that is kept everywhere
+func typeAlphabet(n int) []featSpec {
+	var a []featSpec
+	for t := 0; t < nonPolygonTypes; t++ {
+		a = append(a, featSpec{Kind: "N", T: t})
+	}
+	kept := make(partSpec, n)
+	for i := range kept {
+		kept[i] = 1
+	}
+	return append(a, featSpec{Kind: "P", Parts: []partSpec{kept}})
+}
+
 func scopesC10(thorough bool) []scope {
 	if thorough {
 		return []scope{
+			{Name: "geometry types: N=2 len<=3, <=1 preemption", Targets: 2, Streams: streams(typeAlphabet(2), 3), Bound: 1},
 			{Name: "N=1 len<=3 full alphabet, <=2 preemptions", Targets: 1, Streams: streams(alphabet(1, true), 3), Bound: 2},
 			{Name: "N=2 len<=2 full alphabet, <=2 preemptions", Targets: 2, Streams: streams(alphabet(2, true), 2), Bound: 2},
 			{Name: "N=3 len<=2 reduced alphabet, <=1 preemption", Targets: 3, Streams: streams(alphabet(3, false), 2), Bound: 1},
@@ -542,6 +587,7 @@ func scopesC10(thorough bool) []scope {
 		}
 	}
 	return []scope{
+		{Name: "geometry types: N=2 len<=2, <=1 deviation", Targets: 2, Streams: streams(typeAlphabet(2), 2), Bound: 1, Strict: true},
 		{Name: "N=1 len<=3 full alphabet, <=1 deviation", Targets: 1, Streams: streams(alphabet(1, true), 3), Bound: 1, Strict: true},
 		{Name: "N=2 len<=2 full alphabet, <=1 deviation", Targets: 2, Streams: streams(alphabet(2, true), 2), Bound: 1, Strict: true},
 		{Name: "N=3 len<=2 reduced alphabet, <=1 deviation", Targets: 3, Streams: streams(alphabet(3, false), 2), Bound: 1, Strict: true},
